@@ -11,7 +11,7 @@
          (without separator) is reported: `ab.c` and `a.bc` collide while the name-keyed duplicate check passes.
   C08.F  caller frame isolation: a frame's stack_offset is len - arity and Return truncates exactly to it.
 """
-from cao.facts import (AnchorMissing, callee_names, short, op_local, op_place, DefUse, hir_walk, hir_callee, hir_strip, hir_local_id, hir_children, pat_bindings)
+from cao.facts import (AnchorMissing, callee_names, short, op_local, op_place, DefUse, hir_walk, hir_callee, hir_strip, hir_local_id, hir_children, pat_bindings, pat_variants)
 from cao.rules import Rule, ok, bad, undecided, note
 from cao import mirutil as mu
 from cao import hirutil as hu
@@ -94,6 +94,136 @@ def rule_d(F):
                        "add_function tests the jump table for %s but inserts under %s: two functions with the same name in one sub-module are "
                        "not rejected (the second silently replaces the first), while a root function named like any function of any "
                        "sub-module (including std: map, min, filter, ...) is rejected as a duplicate" % (tk, ik)))
+    return res
+
+
+def rule_t(F):
+    """C08.T: a call executes its callee's body and no other. Function bodies lie one after the other in the bytecode, so
+    what keeps control from running off the end of one body into the next is the `ScalarNil; Return` that the compiler
+    appends: after the body of every non-entry function (compile_stage_2) and of every closure (between compile_begin and
+    compile_end) a Return instruction is emitted on every non-error path - not only when a syntactic test thinks the body
+    'already returns' (a branch that does not return falls through into the next function's code)."""
+    from cao import framebal as fb
+    res = []
+    memo = {}
+
+    def return_blocks_of(g):
+        """blocks of g that unconditionally emit a Return instruction (directly or through a helper that always does)"""
+        du = DefUse(g)
+        out = set()
+        for bi, t in mu.calls(g):
+            nm = callee_names(t["func"])
+            if any(n.endswith("Compiler::push_instruction") for n in nm) and len(t["args"]) >= 2:
+                v = mu.operand_variant(g, du, t["args"][1])
+                if isinstance(v, str) and v.rsplit("::", 1)[-1] == "Return":
+                    out.add(bi)
+            for n in nm:
+                h = F.fn(n, required=False)
+                if h is not None and h.mir and h is not g and n.startswith("compiler::Compiler::") and n not in ("compiler::Compiler::process_card", "compiler::Compiler::compile_subexpr",
+                                                                                                                 "compiler::Compiler::process_function", "compiler::Compiler::push_instruction"):
+                    if always_returns(h):
+                        out.add(bi)
+        return out
+
+    def always_returns(h, depth=0):
+        if h.short in memo:
+            return memo[h.short]
+        memo[h.short] = False
+        if depth > 3:
+            return False
+        rb = return_blocks_of(h)
+        cfg = h.cfg
+        good = bool(rb)
+        if good:
+            # every non-error path from the entry to the return passes one of them
+            stack, seen = [0], set()
+            while stack:
+                b = stack.pop()
+                if b in seen or b in rb or fb._error_block(h, b):
+                    continue
+                seen.add(b)
+                if h.blocks[b]["term"]["k"] == "return":
+                    good = False
+                    break
+                stack.extend(cfg.succ[b])
+        if not good and rb and h.hir:
+            # the Return is skipped under a predicate "the body already returns": accept it when the predicate is sound,
+            # arm by arm (Return -> true; a block ends where its last card ends; an IfElse only if *all* branches return)
+            preds = set()
+            for y in hir_walk(h.hir["body"]):
+                if y.get("k") == "path" and y["path"]["res"].get("k") == "def" and y["path"]["res"].get("def_kind") == "Fn":
+                    pf_ = F.fn(short(y["path"]["res"].get("path", "")), required=False)
+                    if pf_ is not None and pf_.hir and len(pf_.hir.get("params", [])) == 1 and "Card" in (pf_.hir["params"][0].get("ty") or ""):
+                        preds.add(pf_.short)
+            if preds and all(sound_returns_predicate(F.fn(p_)) for p_ in preds):
+                good = True
+        memo[h.short] = good
+        return good
+
+    def sound_returns_predicate(pf_):
+        m = None
+        for y in hir_walk(pf_.hir["body"]):
+            if y.get("k") == "match" and not y.get("exp"):
+                m = y
+                break
+        if m is None:
+            return False
+        for a in m["arms"]:
+            kinds = [v[0].rsplit("::", 1)[-1] for v in pat_variants(a["pat"])]
+            body = hu.strip_all(a["body"])
+            if body is not None and body.get("k") == "lit" and body["lit"].get("v") is False:
+                continue
+            if kinds == ["Return"] and body is not None and body.get("k") == "lit" and body["lit"].get("v") is True:
+                continue
+            calls_ = [z for z in hir_walk(a["body"]) if z.get("k") == "mcall"]
+            names_ = [z["name"] for z in calls_]
+            recursive = any(z.get("k") == "path" and short(z["path"]["res"].get("path", "")) == pf_.short for z in hir_walk(a["body"]))
+            if kinds == ["CompositeCard"] and recursive and "last" in names_ and not ({"any", "first", "nth"} & set(names_)):
+                continue
+            if kinds == ["IfElse"] and recursive and "all" in names_ and "any" not in names_:
+                continue
+            return False
+        return True
+
+    def must_pass(g, start_blocks, stop_blocks, what, key, loc_ln):
+        rb = return_blocks_of(g)
+        cfg = g.cfg
+        leak = None
+        for sb in start_blocks:
+            stack, seen = [sb], set()
+            while stack:
+                b = stack.pop()
+                if b in seen or b in rb or fb._error_block(g, b):
+                    continue
+                seen.add(b)
+                if b in stop_blocks or g.blocks[b]["term"]["k"] == "return":
+                    leak = b
+                    break
+                stack.extend(cfg.succ[b])
+        if leak is None:
+            res.append(ok("C08.T", key, g.loc(loc_ln), "a Return is emitted on every non-error path after %s" % what))
+        else:
+            res.append(bad("C08.T", key, g.loc(loc_ln),
+                           "%s: after %s there is a path on which no Return instruction is emitted (the trailing `ScalarNil; Return` is "
+                           "skipped when some test decides that the body returns by itself): a control path of the body that does not "
+                           "return runs off its end into the code of the next function, which executes in the callee's frame and whose "
+                           "result goes back to the caller" % (g.name, what)))
+
+    s2 = F.fn("compiler::Compiler::compile_stage_2")
+    pf = [(bi, t) for bi, t in mu.calls(s2) if "compiler::Compiler::process_function" in callee_names(t["func"])]
+    in_loop = [(bi, t) for bi, t in pf if any(s2.cfg.dominates(h, bi) for _s, h in s2.cfg.back_edges())]
+    if not in_loop:
+        raise AnchorMissing("process_function call inside the function loop of compile_stage_2")
+    hdrs = set(h for _s, h in s2.cfg.back_edges())
+    must_pass(s2, [t["target"] for _bi, t in in_loop if t.get("target") is not None], hdrs, "the body of a non-entry function",
+              "C08/T/compile_stage_2/function-body-ends-with-return", in_loop[0][1].get("ln"))
+    pc = F.fn("compiler::Compiler::process_card")
+    begins = [(bi, t) for bi, t in mu.calls(pc) if "compiler::Compiler::compile_begin" in callee_names(t["func"])]
+    ends = set(bi for bi, t in mu.calls(pc) if "compiler::Compiler::compile_end" in callee_names(t["func"]))
+    if not begins or not ends:
+        raise AnchorMissing("compile_begin / compile_end in process_card (closure bodies)")
+    must_pass(pc, [t["target"] for _bi, t in begins if t.get("target") is not None], ends, "the body of a closure",
+              "C08/T/process_card[Closure]/closure-body-ends-with-return", begins[0][1].get("ln"))
     return res
 
 
@@ -523,6 +653,7 @@ def rule_f(F):
 RULES = [
     Rule("C08.H", rule_h, 1, "function handles are injective"),
     Rule("C08.D", rule_d, 1, "duplicate test and insertion use the same key"),
+    Rule("C08.T", rule_t, 2, "every function and closure body is followed by an unconditional Return"),
     Rule("C08.M", rule_m, 2, "the duplicate sub-module scan completes before its set is reused"),
     Rule("C08.P", rule_p, 3, "`super.` is a leading component; the alias enters the looked-up name stripped"),
     Rule("C08.V", rule_v, 2, "every namespace component is validated"),
